@@ -341,15 +341,22 @@ class AsyncTunnelHTTPConnection(AsyncConnectionInterface):
                         or self._remote_origin.host.decode("ascii"),
                         "timeout": timeout,
                     }
+                    tls_stream = None
                     try:
                         async with Trace("start_tls", logger, request, kwargs) as trace:
-                            stream = await stream.start_tls(**kwargs)
+                            tls_stream = await stream.start_tls(**kwargs)
+                            stream = tls_stream
                             trace.return_value = stream
                     except BaseException as exc:
                         # The proxy connection is still servicing the CONNECT
                         # request, so it needs closing if the tunnel isn't set up.
                         with AsyncShieldCancellation():
                             await self._connection.aclose()
+                            if tls_stream is not None:
+                                # The handshake had completed (the trace callback
+                                # failed, or was cancelled): the socket belongs
+                                # to the TLS stream now.
+                                await tls_stream.aclose()
                         raise exc
 
                 # Determine if we should be using HTTP/1.1 or HTTP/2
